@@ -339,3 +339,59 @@ Qed.
 (** the side conditions are invariants of the kernel *)
 Lemma tf_rest_sub : forall w q r rest, take_first w q = Some (r, rest) -> forall e, In e rest -> In e q.
 Proof. intros. eapply tf_rest_in; eauto. Qed.
+
+Lemma tf_none_all : forall w q, take_first w q = None -> forall e, In e q -> fst e = negb w.
+Proof.
+  intros w q H [k r] Hin. cbn. destruct (Bool.eqb k w) eqn:E.
+  - apply Bool.eqb_prop in E. subst. exfalso. eapply tf_none; eauto.
+  - destruct k, w; cbn in *; congruence.
+Qed.
+
+Lemma wfc_post : forall s a m d, wfc s -> wfc (comm_post s a m d).
+Proof.
+  intros s a m d (Hcn & Hq & Hh). unfold comm_post.
+  destruct (take_first (negb d) (Q s m)) as [[[b j] rest]|] eqn:E; unfold wfc; cbn [CN RQ Q].
+  - pose proof (Hq _ _ _ _ (tf_in _ _ _ _ E)) as [Hj Hr].
+    split; [intros a'; unfold upd; destruct (a' =? a); [specialize (Hcn a); lia|apply Hcn]|]. split.
+    + intros m' kd b' j' Hin. unfold upd in Hin. destruct (Z.eqb_spec m' m) as [->|Hm].
+      * pose proof (Hq _ _ _ _ (tf_rest_in _ _ _ _ _ E Hin)) as [Hj' Hr'].
+        unfold upd, upd2; cbn [rmb]. specialize (Hcn a). split; eqb_crush.
+      * pose proof (Hq _ _ _ _ Hin) as [Hj' Hr'].
+        unfold upd, upd2; cbn [rmb]. specialize (Hcn a). split; eqb_crush.
+    + intros m'. unfold upd. destruct (Z.eqb_spec m' m) as [->|Hm]; [|apply Hh].
+      destruct (Hh m) as [kd Hkd]. exists kd. intros e Hin. apply Hkd. eapply tf_rest_in; eauto.
+  - split; [intros a'; unfold upd; destruct (a' =? a); [specialize (Hcn a); lia|apply Hcn]|]. split.
+    + intros m' kd b' j' Hin. unfold upd in Hin. destruct (Z.eqb_spec m' m) as [->|Hm].
+      * apply in_app_or in Hin. destruct Hin as [Hin|[Hin|[]]].
+        -- pose proof (Hq _ _ _ _ Hin) as [Hj' Hr']. unfold upd, upd2; cbn [rmb]. specialize (Hcn a). split; eqb_crush.
+        -- inversion Hin; subst. unfold upd, upd2; cbn [rmb]. rewrite !Z.eqb_refl. cbn [andb rmb]. specialize (Hcn b'). split; [lia|reflexivity].
+      * pose proof (Hq _ _ _ _ Hin) as [Hj' Hr']. unfold upd, upd2; cbn [rmb]. specialize (Hcn a). split; eqb_crush.
+    + intros m'. unfold upd. destruct (Z.eqb_spec m' m) as [->|Hm]; [|apply Hh].
+      exists d. intros e Hin. apply in_app_or in Hin. destruct Hin as [Hin|[Hin|[]]]; [|subst; reflexivity].
+      rewrite (tf_none_all _ _ E e Hin). apply Bool.negb_involutive.
+Qed.
+
+(** well-formedness is preserved by every enabled step *)
+Theorem xwf_step : forall s t, xwf s -> xenabled s t = true -> xwf (xstep s t).
+Proof.
+  intros s t (Hk & Hv & Hb & Ha & Hc) He.
+  assert (Hall : wf_all (K s)) by (split; [exact Hk|intros k; unfold wfs; apply Hv]).
+  unfold xenabled in He. apply andb_true_iff in He. destruct He as [Hal He]. apply Z.eqb_eq in Hal.
+  assert (Hlt : xaid t < NP s) by (apply Ha; lia).
+  destruct t as [t|a b op|a op|a op]; cbn [xaid] in *.
+  - destruct (wf_step (K s) t Hall) as [H1 H2]. unfold xwf; cbn [xstep with_K K B AL NP CN RQ Q].
+    split; [exact H1|]. split; [exact H2|]. split; [exact Hb|]. split; [exact Ha|exact Hc].
+  - unfold xwf; cbn [xstep K B AL NP CN RQ Q]. split; [assumption|]. split; [assumption|]. split; [|split; assumption].
+    intros b'. unfold upd. destruct (b' =? b); [|apply Hb]. destruct (Hb b) as [Hn Hq]. unfold wfb.
+    assert (Hm : (bn (B s b) - 1) mod 2 ^ 32 = bn (B s b) - 1) by (apply Z.mod_small; lia).
+    destruct op; cbn [bstep]; [rewrite Hm; destruct (Z.ltb_spec (Z.of_nat (length (bq (B s b)))) (bn (B s b) - 1))|];
+      cbn [bn bq]; rewrite ?app_length; cbn [length]; lia.
+  - destruct op; unfold xwf; cbn [xstep with_K push_obs K B AL NP CN RQ Q M S];
+      (split; [exact Hk|]); (split; [exact Hv|]); (split; [exact Hb|]); (split; [|exact Hc]); try exact Ha;
+      intros p; unfold upd;
+      match goal with |- context [p =? ?x] => destruct (Z.eqb_spec p x) end; intros Hp; try (specialize (Ha p Hp)); lia.
+  - destruct op; cbn [xstep]; try (unfold xwf; cbn [with_K push_obs K B AL NP CN RQ Q M S]; (split; [exact Hk|]); (split; [exact Hv|]); (split; [exact Hb|]); (split; [exact Ha|exact Hc]); fail);
+      unfold xwf; rewrite ?post_K, ?post_AL;
+      (split; [assumption|]); (split; [assumption|]); (split; [unfold comm_post; destruct (take_first _ _) as [[[? ?] ?]|]; assumption|]);
+      (split; [unfold comm_post; destruct (take_first _ _) as [[[? ?] ?]|]; assumption|]); apply wfc_post; assumption.
+Qed.
